@@ -39,6 +39,7 @@ def run_jobs(target, jobs, nproc=16, timeout=300, env=None, on_result=None):
     scratch = os.path.join(tmpdir, 't')
     os.makedirs(scratch)
     cenv['TMPDIR'] = scratch
+    cenv['VERIF_SCRATCH_ROOT'] = tmpdir      # compat.guard confines the workers' (and their children's) writes to it
     try:
         while pending or running:
             while pending and len(running) < nproc:
@@ -56,7 +57,7 @@ def run_jobs(target, jobs, nproc=16, timeout=300, env=None, on_result=None):
                     jenv = dict(cenv, **{k: str(v) for k, v in job['_env'].items()})
                 proc = subprocess.Popen(
                     [PY, '-m', 'harness.par', target, inpath, outpath],
-                    cwd=VERIF, env=jenv, stdout=errf, stderr=subprocess.STDOUT,
+                    cwd=scratch, env=jenv, stdout=errf, stderr=subprocess.STDOUT,
                     stdin=subprocess.DEVNULL, start_new_session=True)
                 errf.close()
                 running.append((idx, proc, inpath, outpath, errpath, time.time()))
